@@ -48,6 +48,15 @@ def speed_case(ctx, lon, lat, t, st, ft, carrier, tag) -> None:
                          logical={"lon": lon, "lat": lat, "t": t, "suspect_threshold": st, "fail_threshold": ft,
                                   "time_carrier": carrier}, hist="speed")
     ctx.count("speed.calls")
+    if ctx.rng.random() < 0.3:
+        # history: the same track judged again right away (other thresholds or the same ones): same answer as a first call
+        st2, ft2 = (st, ft) if ctx.rng.random() < 0.5 else (ft, st)
+        kw2 = {**kw, "suspect_threshold": st2, "fail_threshold": ft2}
+        client.expect(ctx, "C10", "argo.speed_test", kw2, lambda: models.speed(lon, lat, t, st2, ft2),
+                      logical={"lon": lon, "lat": lat, "t": t, "suspect_threshold": st2, "fail_threshold": ft2, "time_carrier": carrier,
+                               "note": "second call on the same track objects"}, hist="speed")
+        ctx.count("speed.calls")
+        ctx.count("speed.repeated_track_calls")
     fs = gen.flagset(o)
     mc = gen.mclass([None if (a is None or b is None) else 0 for a, b in zip(lon, lat)])
     ctx.case(f"speed|{tag}|{carrier}|n{gen.nclass(len(lon))}|m{mc}|{fs}", trivial=fs in ("12", "2"),
